@@ -446,11 +446,22 @@ fn main() {
     let stdout = std::io::stdout();
     let mut out = stdout.lock();
     std::panic::set_hook(Box::new(|info| {
-        let site = info
-            .location()
-            .map(|l| format!("{}:{}", l.file().rsplit("src/").next().unwrap_or(""), l.line()))
-            .unwrap_or_else(|| "?".into());
-        LAST_PANIC.with(|p| *p.borrow_mut() = site);
+        // a panic is identified by its message (stable under edits that merely move lines)
+        let message = if let Some(s) = info.payload().downcast_ref::<&str>() {
+            s.to_string()
+        }
+        else if let Some(s) = info.payload().downcast_ref::<String>() {
+            s.clone()
+        }
+        else {
+            "?".to_string()
+        };
+        let slug: String = message
+            .chars()
+            .take(56)
+            .map(|c| if c.is_ascii_alphanumeric() { c.to_ascii_lowercase() } else { '-' })
+            .collect();
+        LAST_PANIC.with(|p| *p.borrow_mut() = slug);
     }));
     for line in stdin.lock().lines() {
         let line = line.unwrap();
